@@ -94,8 +94,16 @@ def run_driver(cases, with_cleanup):
 def _run_harness_chunk(args):
     text, mode = args
     """returns (stdout text, returncode)"""
-    p = subprocess.run([HEXEC, mode, "--no-cleanup"], input=text.encode(), stdout=subprocess.PIPE,
-                       stderr=subprocess.PIPE)
+    # watchdog: the harness executes about 10^5 operations per second; a chunk that needs a thousand times longer is
+    # hanging inside the library (e.g. a trace looping through stale links).  The transcript is flushed per
+    # operation, so the partial output tells which operation of which case did not return; rc 124 = "hung".
+    limit = 60 + 0.005 * text.count("\n")
+    try:
+        p = subprocess.run([HEXEC, mode, "--no-cleanup"], input=text.encode(), stdout=subprocess.PIPE,
+                           stderr=subprocess.PIPE, timeout=limit)
+    except subprocess.TimeoutExpired as ex:
+        out = (ex.stdout or b"").decode(errors="replace")
+        return out, 124, f"hung: no progress within {limit:.0f} s"
     return p.stdout.decode(errors="replace"), p.returncode, p.stderr.decode(errors="replace")[-400:]
 
 
